@@ -10,6 +10,8 @@ SW=/tmp/sw_$ID; SV=/tmp/sv_$ID
 git -C /repo worktree add -q --detach "$SW" HEAD || exit 2
 cleanup() { git -C /repo worktree remove --force "$SW" 2>/dev/null; rm -rf "$SV"; }
 trap cleanup EXIT
+# carry over not-yet-committed verification hook files (add-only zz_verif_*.go)
+(cd /repo && git ls-files -mo --exclude-standard | grep "zz_verif_" | rsync -a --files-from=- /repo/ "$SW"/)
 if ! git -C "$SW" apply "$PATCH"; then echo "PATCH DOES NOT APPLY"; exit 2; fi
 mkdir -p "$SV"
 rsync -a --exclude .git --exclude run --exclude replays --exclude seeded /verif/ "$SV"/
@@ -17,6 +19,6 @@ sed -i "s#=> /repo#=> $SW#" "$SV/harness/go.mod"
 rc=0
 for P in "$@"; do
   (cd "$SV" && VERIF_REPO="$SW" ${VERIF_TIER:+VERIF_TIER=$VERIF_TIER} timeout 1800 ./check "$P" 2>"$SV/err_$P.txt" | tail -8) || true
-  grep -h "go build failed\|HARNESS ERROR\|proof build failed" "$SV/err_$P.txt" | head -3
+  grep -h -A8 "go build failed\|HARNESS ERROR\|proof build failed" "$SV/err_$P.txt" | head -14
   if [ -n "${KEEP_REPLAYS:-}" ]; then mkdir -p "$KEEP_REPLAYS"; cp -r "$SV/replays/." "$KEEP_REPLAYS"/ 2>/dev/null; cp "$SV/evidence/$P.json" "$KEEP_REPLAYS/evidence_$P.json" 2>/dev/null; fi
 done
